@@ -1,1 +1,171 @@
-(* Props/C17.v -- stub, to be filled *)
+(* C17 -- protobuf write/read round trip up to ProtobufEq, both writer back ends.
+   This file only pins statements; proofs live in Proto/Proofs.v.  Where the faithful model refutes
+   the property the witness is pinned here (closed by computation) together with the class predicate. *)
+From A1 Require Import Proto.Wire Proto.Rw Proto.Proofs.
+Local Open Scope N_scope.
+
+(** ** proved for every input *)
+Theorem C17_varint_roundtrip : forall v tail, v < two64 ->
+  read_varint (write_varint v ++ tail) = Ok (v, tail).
+Proof. exact varint_roundtrip. Qed.
+
+Theorem C17_zigzag_roundtrip :
+  (forall z, is_i32 z -> unzz32 (zz32 z) = z) /\ (forall z, is_i64 z -> unzz64 (zz64 z) = z).
+Proof. split; [exact zigzag32_roundtrip | exact zigzag64_roundtrip]. Qed.
+
+Theorem C17_tag_roundtrip : forall field f tail, field < 2 ^ 29 ->
+  read_tag (write_tag field f ++ tail) = Ok (field, f, tail).
+Proof. exact tag_roundtrip. Qed.
+
+(* every integer kind (the writer's choice among uint32/uint64/sint32/sint64 and all `as` casts) *)
+Theorem C17_number_roundtrip : forall k z, in_kind k z = true ->
+  number_read k (number_bytes k z) = Ok z.
+Proof. exact number_roundtrip. Qed.
+
+(** ** the message-level round trip: proved for one-component integer messages (all kinds, all values,
+       both profiles) and, bounded-exhaustively, for every value of a flat SEQUENCE with an OPTIONAL *)
+Theorem C17_roundtrip_partial : forall m k z, in_kind k z = true ->
+  let t := TSeq [(false, TInt k)] in
+  let v := VSeq [VInt z] in
+  exists bs, pwrite_vec m t v = Ok bs /\ pread m t bs = Ok v /\ peq t v v = true.
+Proof. exact roundtrip_int_message. Qed.
+
+Theorem C17_roundtrip_flat_partial : forall m b x oy,
+  (m = dev_mode \/ m = release_mode) ->
+  x < 256 -> (forall y, oy = Some y -> (-128 <= y < 128)%Z) ->
+  let v := VSeq [VBool b; VInt (Z.of_N x); VOpt (option_map VInt oy)] in
+  exists bs v', pwrite_vec m flat_ty v = Ok bs /\ pread m flat_ty bs = Ok v' /\ peq flat_ty v v' = true.
+Proof. exact roundtrip_flat. Qed.
+
+Theorem C17_backends_agree_partial : forall m b x oy,
+  (m = dev_mode \/ m = release_mode) ->
+  x < 256 -> (forall y, oy = Some y -> (-128 <= y < 128)%Z) ->
+  let v := VSeq [VBool b; VInt (Z.of_N x); VOpt (option_map VInt oy)] in
+  exists bs, pwrite_vec m flat_ty v = Ok bs /\
+    pwrite_slice m (N.of_nat (length bs)) flat_ty v = Ok bs /\
+    pwrite_slice m (N.of_nat (length bs) + 3) flat_ty v = Ok bs /\
+    pwrite_slice m (N.of_nat (length bs) - 1) flat_ty v = Err E_IO.
+Proof. exact backends_agree_flat. Qed.
+
+(** ** classes in which the faithful model refutes the property *)
+(* a present OPTIONAL NULL: write_null leaves the tag counter alone, read_opt advances it when the next tag is absent *)
+Definition Known_optional_null (t : pty) : Prop :=
+  exists fs, t = TSeq fs /\ In (true, TNull) fs.
+(* a CHOICE with a NULL alternative (nothing is written, read_choice needs a tag) or a SEQUENCE OF alternative
+   (only the first element's header is consumed) *)
+Definition Known_choice_alternative (t : pty) : Prop :=
+  exists alts, t = TChoice alts /\ (In TNull alts \/ exists e, In (TSeqOf e) alts).
+(* SEQUENCE OF SEQUENCE OF: the inner read_sequence_of runs in State::Root and never ends *)
+Definition Known_nested_list (t : pty) : Prop := exists e, t = TSeqOf (TSeqOf e).
+(* a BitVec holding more bytes than its bit length needs (BitVec::from_bytes keeps them) *)
+Definition Known_bitvec_excess (v : pval) : Prop :=
+  exists bytes n, v = VBits bytes n /\ N.of_nat (length bytes) <> (n + 7) / 8.
+
+Definition t_optnull := TSeq [(true, TNull); (true, TInt KU8); (false, TInt KU8)].
+Theorem C17_refuted_optional_null :
+  Known_optional_null t_optnull /\
+  exists v bs v', wf_val t_optnull v = true /\
+    pwrite_vec dev_mode t_optnull v = Ok bs /\ pread dev_mode t_optnull bs = Ok v' /\ peq t_optnull v v' = false.
+Proof.
+  split; [exists [(true, TNull); (true, TInt KU8); (false, TInt KU8)]; split; [reflexivity|left; reflexivity]|].
+  exists (VSeq [VOpt (Some VNull); VOpt None; VInt 5]), [16; 5], (VSeq [VOpt None; VOpt (Some (VInt 5)); VInt 0]).
+  vm_compute. repeat split; reflexivity.
+Qed.
+
+Definition t_chnull := TChoice [TNull; TInt KU8].
+Theorem C17_refuted_choice_null :
+  Known_choice_alternative t_chnull /\
+  pwrite_vec dev_mode t_chnull (VChoice 0 VNull) = Ok [] /\ pread dev_mode t_chnull [] = Err E_IO /\
+  (* also when nested in a SEQUENCE *)
+  pwrite_vec dev_mode (TSeq [(false, t_chnull)]) (VSeq [VChoice 0 VNull]) = Ok [10; 0] /\
+  pread dev_mode (TSeq [(false, t_chnull)]) [10; 0] = Err E_IO.
+Proof.
+  split; [exists [TNull; TInt KU8]; split; [reflexivity|left; left; reflexivity]|].
+  vm_compute. repeat split; reflexivity.
+Qed.
+
+Definition t_chlist := TChoice [TSeqOf (TInt KU8); TInt KU8].
+Theorem C17_refuted_choice_list :
+  Known_choice_alternative t_chlist /\
+  pwrite_vec dev_mode t_chlist (VChoice 0 (VList [VInt 1; VInt 2])) = Ok [8; 1; 8; 2] /\
+  pread dev_mode t_chlist [8; 1; 8; 2] = Ok (VChoice 0 (VList [VInt 1])) /\
+  pwrite_vec dev_mode t_chlist (VChoice 0 (VList [])) = Ok [] /\
+  pread dev_mode t_chlist [] = Err E_IO.
+Proof.
+  split; [exists [TSeqOf (TInt KU8); TInt KU8]; split; [reflexivity|right; exists (TInt KU8); left; reflexivity]|].
+  vm_compute. repeat split; reflexivity.
+Qed.
+
+Definition t_nested := TSeq [(false, TSeqOf (TSeqOf (TInt KU8))); (false, TInt KU8)].
+Theorem C17_refuted_nested_list :
+  Known_nested_list (TSeqOf (TSeqOf (TInt KU8))) /\
+  pwrite_vec dev_mode t_nested (VSeq [VList [VList [VInt 7]]; VInt 9]) = Ok [8; 7; 16; 9] /\
+  pread dev_mode t_nested [8; 7; 16; 9] = Panic P_UNBOUNDED /\
+  pread release_mode t_nested [8; 7; 16; 9] = Panic P_UNBOUNDED /\
+  (* and the nesting is lost on the wire: [[1],[2]] and [[1,2]] have the same bytes *)
+  pwrite_vec dev_mode t_nested (VSeq [VList [VList [VInt 1]; VList [VInt 2]]; VInt 0])
+  = pwrite_vec dev_mode t_nested (VSeq [VList [VList [VInt 1; VInt 2]]; VInt 0]).
+Proof.
+  split; [exists (TInt KU8); reflexivity|].
+  vm_compute. repeat split; reflexivity.
+Qed.
+
+Theorem C17_refuted_bitvec_excess :
+  let t := TSeq [(false, TBits)] in
+  let v := VSeq [VBits [224; 255] 3] in
+  Known_bitvec_excess (VBits [224; 255] 3) /\
+  exists bs, pwrite_vec dev_mode t v = Ok bs /\ pread dev_mode t bs = Ok (VSeq [VBits [224] 3]) /\
+             peq t v (VSeq [VBits [224] 3]) = false.
+Proof.
+  split; [exists [224; 255], 3; split; [reflexivity|vm_compute; discriminate]|].
+  eexists. vm_compute. repeat split; reflexivity.
+Qed.
+
+(** ** C04 (protobuf reader on arbitrary bytes): panic sites reached by the faithful model *)
+Definition t_inner := TSeq [(false, TInt KU16); (true, TStr)].
+(* BitVec::from_vec_with_trailing_bit_len: bytes.len() - 8 on fewer than 8 bytes (an absent field is 0 bytes) *)
+Theorem C04_proto_refuted_bit_vec_short :
+  pread dev_mode (TSeq [(false, TBits)]) [] = Panic P_ARITH /\
+  pread release_mode (TSeq [(false, TBits)]) [] = Panic P_SLICE_RANGE /\
+  read_bit_vec dev_mode [1; 2; 3] = Panic P_ARITH.
+Proof. vm_compute. repeat split; reflexivity. Qed.
+
+(* index_enclosed: content_position + content_length with an untrusted 64-bit length *)
+Theorem C04_proto_refuted_length_overflow :
+  pread dev_mode t_inner [10; 255; 255; 255; 255; 255; 255; 255; 255; 255; 1] = Panic P_ARITH /\
+  (* release: the sum wraps, position moves backwards and the loop never ends *)
+  pread release_mode t_inner [8; 129; 128; 2; 18; 245; 255; 255; 255; 255; 255; 255; 255; 255; 1; 97]
+  = Panic P_UNBOUNDED.
+Proof. vm_compute. repeat split; reflexivity. Qed.
+
+(* index_enclosed records ranges beyond the end of the input; &self.source[range] panics later *)
+Theorem C04_proto_refuted_trusted_length :
+  pread dev_mode t_inner [18; 5] = Panic P_SLICE_RANGE /\
+  pread release_mode t_inner [18; 5] = Panic P_SLICE_RANGE.
+Proof. vm_compute. repeat split; reflexivity. Qed.
+
+(* non-vacuity: hypotheses inhabited by non-trivial values, and the model produces the expected bytes *)
+Example C17_nonvacuous :
+  300 < two64 /\ write_varint 300 = [172; 2] /\ is_i32 (-2147483648) /\
+  write_sint32 1073741824 = [128; 128; 128; 128; 248; 255; 255; 255; 255; 1] /\
+  in_kind KI16 (-300) = true /\
+  pwrite_vec dev_mode (TSeq [(false, TInt KI16)]) (VSeq [VInt (-300)]) = Ok [8; 215; 4] /\
+  pwrite_vec dev_mode flat_ty (VSeq [VBool true; VInt 200; VOpt (Some (VInt (-3)))]) = Ok [8; 1; 16; 200; 1; 24; 5] /\
+  wf_val t_optnull (VSeq [VOpt (Some VNull); VOpt None; VInt 5]) = true.
+Proof. vm_compute. repeat split; congruence. Qed.
+
+Print Assumptions C17_varint_roundtrip.
+Print Assumptions C17_zigzag_roundtrip.
+Print Assumptions C17_tag_roundtrip.
+Print Assumptions C17_number_roundtrip.
+Print Assumptions C17_roundtrip_partial.
+Print Assumptions C17_roundtrip_flat_partial.
+Print Assumptions C17_backends_agree_partial.
+Print Assumptions C17_refuted_optional_null.
+Print Assumptions C17_refuted_choice_null.
+Print Assumptions C17_refuted_choice_list.
+Print Assumptions C17_refuted_nested_list.
+Print Assumptions C17_refuted_bitvec_excess.
+Print Assumptions C04_proto_refuted_bit_vec_short.
+Print Assumptions C04_proto_refuted_length_overflow.
+Print Assumptions C04_proto_refuted_trusted_length.
